@@ -162,7 +162,11 @@ def parsePools (p : String) : List Key × List Key :=
   | _ => ([], [])
 
 /-- first token of a case line: where the system entity constraint is registered -/
-def parseReg (kind : String) : Reg :=
+def parseReg (kind0 : String) : Reg :=
+  -- a trailing `W` = the WIDE entity strategies (harness/c16_wide.go: name / owner / level through
+  -- `GetAndSetString` / `SetStringP`, derived copies through every other setter): which setters the
+  -- strategy calls does not enter `step` (`refused_update_any_strategy`), same model
+  let kind := if kind0.length > 1 && kind0.endsWith "W" then String.ofList kind0.toList.dropLast else kind0
   match kind with
   | "HC" => { onS := false, onC := true }
   | "HB" => { onS := true, onC := true }
